@@ -68,7 +68,7 @@ V('C17', 'ack-on-serialisation-failure', F, P + 'BaseWorker.call',
                 'could not serialize result in worker subprocess')''', 'C17.R3', 'ack-on-other-status')
 V('C17', 'worker-state-outside-try', W, 'edb.server.compiler_pool.worker.__sync__',
   '''        if system_config is not None:
-            INSTANCE_CONFIG = pickle.loads(system_config)
+            INSTANCE_CONFIG = system_config_unpacked
 
     except Exception as ex:
         raise state.FailedStateSync(
@@ -78,10 +78,10 @@ V('C17', 'worker-state-outside-try', W, 'edb.server.compiler_pool.worker.__sync_
             f'failed to sync worker state: {type(ex).__name__}({ex})') from ex
 
     if system_config is not None:
-        INSTANCE_CONFIG = pickle.loads(system_config)
+        INSTANCE_CONFIG = system_config_unpacked
 ''', 'C17.R3', 'write=INSTANCE_CONFIG')
 V('C17', 'sync-stores-wrong-global', W, 'edb.server.compiler_pool.worker.__sync__',
-  'INSTANCE_CONFIG = pickle.loads(system_config)', 'INSTANCE_CONFIG = pickle.loads(database_config)',
+  'None if system_config is None else pickle.loads(system_config))', 'None if system_config is None else pickle.loads(database_config))',
   'C17.R1', 'store=')
 V('C17', 'compiler-args-swapped', W, 'edb.server.compiler_pool.worker.compile_notebook',
   '''        db.database_config,
